@@ -129,6 +129,31 @@ def run(ctx):
         reqs.append(f"buildrt type_int/{w}/{sign} constant_bit32/1/{top} spec_constant_bit32/1/1 begin_function/1/-/0/2 begin_block/- undef/1/- switch/6/9/{l32}:{top}=10,{l32}:0=11 end_function")
     for w in (16, 32):
         reqs.append(f"buildrt type_float/{w}/- constant_bit32/1/1065353216 spec_constant_bit32/1/0 begin_function/1/-/0/2 begin_block/- ret end_function")
+    # functions and blocks built out of order: all functions begun first, then completed in another order through select_function; blocks
+    # left open, other blocks begun, and the open ones terminated later through select_block. Every history is complete (each block
+    # terminated, each function ended), so the built module must reload unchanged
+    import itertools
+    terms = ["ret", "kill", "unreachable", "branch/9", "ret_value/8"]
+    for nf in (2, 3):
+        for order in itertools.permutations(range(nf)):
+            for variant in range(3):
+                calls = []
+                for f in range(nf):
+                    calls += ["begin_function/1/-/0/2"] + (["function_parameter/1"] if (f + variant) % 2 else []) + ["select_function/-"]
+                for f in order:
+                    calls.append(f"select_function/{f}")
+                    nb = 1 + (f + variant) % 3
+                    if variant == 2:
+                        # open all blocks first (deselecting each), then terminate them in reverse order
+                        for b in range(nb):
+                            calls += ["begin_block/-", "nop", "select_block/-"]
+                        for b in reversed(range(nb)):
+                            calls += [f"select_block/{b}", "i_add/1/-/7/8", terms[(b + f) % len(terms)]]
+                    else:
+                        for b in range(nb):
+                            calls += ["begin_block/-", "nop", terms[(b + f + variant) % len(terms)]]
+                    calls.append("end_function")
+                reqs.append("buildrt " + " ".join(calls))
     n_single = len(reqs)
     for _ in range(300 if ctx.tier == "quick" else 5000):
         reqs.append("buildrt " + " ".join(g.history(size=rnd.choice([0.5, 1, 2]), skip=skip)))
